@@ -65,6 +65,17 @@ def generate(tier, rng):
                        gens.ns6(src6, dst6), gens.ns6(src6, gens.SELF6, dst=dst6, mac_dst=net.MAC_SELF),
                        net.frame_tcp(src4, dst4, 5, 80, 1, 0, 2), net.frame_tcp(src6, dst6, 5, 80, 1, 0, 2),
                        net.frame_udp(src4, dst4, 5, 53, gens.dns_query()), net.frame_udp(src6, dst6, 5, 22, b"SSH-2.0-x\r\n")]
+        # the IPv4-mapped IPv6 spelling of listed and denied IPv4 addresses is a DIFFERENT address
+        for a4 in [a for a in (cfg.self_ips or [gens.SELF4]) if len(net.ip_bytes(a)) == 4][:2] + [gens.DENY4]:
+            m6 = bytes(10) + b"\xff\xff" + net.ip_bytes(a4)
+            for dstm, srcm in ((m6, net.ip_bytes(gens.PEER6)), (net.ip_bytes(own6), m6)):
+                fr += [net.frame_tcp(srcm, dstm, 5, 80, 1, 0, 2), net.frame_udp(srcm, dstm, 5, 3478, gens.stun_req()),
+                       gens.echo6(srcm, dstm)]
+        # 802.1Q / 802.1ad tagged frames: the EtherType is not one of the three that are handled
+        for tag_ety in (0x8100, 0x88a8, 0x9100):
+            for inner in (gens.arp_req(own4), gens.echo4(gens.PEER4, own4), net.frame_tcp(gens.PEER4, own4, 5, 80, 1, 0, 2),
+                          gens.echo6(gens.PEER6, own6)):
+                fr.append(inner[:12] + struct.pack("!HH", tag_ety, 0x0064) + inner[12:])
         yield Script(cfg, fr, "address-scope")
         # every application responder (a handler may rewrite the client information the lower layers answer from)
         fr = []
